@@ -59,6 +59,9 @@ func harnessOverlay(repo, harnessRoot string, pkgDirs []string, native bool) (ma
 		if pkgName == "" {
 			return nil, nil, fmt.Errorf("no harness files in %s", dir)
 		}
+		for name, data := range extraOverlay[pd] {
+			ov[filepath.Join(repo, pd, "zz_verif_"+name)] = data
+		}
 		rt := "rt_engine.go.txt"
 		if native {
 			rt = "rt_native.go.txt"
